@@ -17,8 +17,9 @@ order of evaluation:
 
 `classify(A, B)` looks at two snapshots of the same document evaluated in different orders and returns
 the mechanism key if *every* difference is explained by one of them, else None:
-  * same tables, same row ids, same columns, same metadata;
-  * every differing cell is in a formula column;
+  * same tables, same columns, same metadata; same row ids except in summary tables that group by an
+    affected column (their rows, group-by cells and formulas follow the values of that column);
+  * every other differing cell is in a formula column;
   * the static reference graph (built from the formula texts) has a strongly connected component that
     qualifies for a mechanism (contains a catching formula / contains a lookup-key or sort-key edge);
   * at least one differing cell lies in a column of such a component and holds CircularRefError on
@@ -167,6 +168,18 @@ def downstream(seed, edges):
   return seen
 
 
+def summary_sources(S):
+  """{summary table id: set of (source table, source column) it groups by}"""
+  T = rows_of(S, '_grist_Tables')
+  C = rows_of(S, '_grist_Tables_column')
+  out = {}
+  for c in C.values():
+    sc = c.get('summarySourceCol')
+    if sc and sc in C and c['parentId'] in T and C[sc]['parentId'] in T:
+      out.setdefault(T[c['parentId']]['tableId'], set()).add((T[C[sc]['parentId']]['tableId'], C[sc]['colId']))
+  return out
+
+
 def classify(A, B):
   if set(A) != set(B):
     return None
@@ -174,10 +187,17 @@ def classify(A, B):
     if A.get(t) != B.get(t):
       return None
   cols = columns(A)
-  diffs = []
+  sums = summary_sources(A)
+  diffs = []          # differing cells of tables whose row sets agree
+  rowdiff = set()     # tables whose row sets differ (only explicable for summary tables grouped by an affected column)
   for t in A:
-    if A[t][0] != B[t][0] or set(A[t][1]) != set(B[t][1]):
+    if set(A[t][1]) != set(B[t][1]):
       return None
+    if A[t][0] != B[t][0]:
+      if t not in sums:
+        return None
+      rowdiff.add(t)
+      continue
     for c in A[t][1]:
       if A[t][1][c] != B[t][1][c]:
         for r, x, y in zip(A[t][0], A[t][1][c], B[t][1][c]):
@@ -185,10 +205,6 @@ def classify(A, B):
             diffs.append((t, c, r, x, y))
   if not diffs:
     return None
-  for (t, c, r, x, y) in diffs:
-    info = cols.get((t, c))
-    if info is None or not info['isFormula']:
-      return None
   edges = graph(cols)
   found = {}
   for comp in sccs(edges):
@@ -205,7 +221,30 @@ def classify(A, B):
     core = [d for d in diffs if (d[0], d[1]) in comp and is_circ(d[3]) != is_circ(d[4])]
     if not core:
       continue
+    # Everything that reads the cycle, and every summary table grouped by something that does (its rows, its
+    # group-by cells and all its formulas follow the values of the source column), to a fixpoint.
     reach = downstream(comp, edges)
-    if all((d[0], d[1]) in reach for d in diffs):
+    affected_tables = set()
+    while True:
+      new = [st for st, srcs in sums.items() if st not in affected_tables and srcs & reach]
+      if not new:
+        break
+      affected_tables.update(new)
+      seed = set(reach)
+      for st in new:
+        seed.update(k for k in cols if k[0] == st)
+      reach = downstream(seed, edges)
+    if not rowdiff <= affected_tables:
+      continue
+    ok = True
+    for d in diffs:
+      key = (d[0], d[1])
+      if d[0] in affected_tables:
+        continue
+      info = cols.get(key)
+      if info is None or not info['isFormula'] or key not in reach:
+        ok = False
+        break
+    if ok:
       return mech
   return None
